@@ -626,6 +626,10 @@ type SessionParams struct {
 	AlwaysOn       int // -1 absent
 	QoSFlowDescs   []byte
 	DNN            string
+	// Rel16: optional IEs a Release-16 SMF adds behind the Release-15 ones, in the order of table 8.3.2.1.1 (5GSM
+	// network feature support 17, serving PLMN rate control 18, control plane only indication C-, Ethernet header
+	// compression configuration 1F), already encoded
+	Rel16 []byte
 }
 
 // BuildPDUSessionEstablishmentAccept: TS 24.501 8.3.2 — selected PDU session type | SSC
@@ -654,7 +658,7 @@ func BuildPDUSessionEstablishmentAccept(psi, pti int, p SessionParams) []byte {
 	if p.DNN != "" {
 		b = append(b, tlv(0x25, EncodeDNN(p.DNN))...)
 	}
-	return b
+	return append(b, p.Rel16...)
 }
 
 // EncodeDNN: labels, each preceded by its length (TS 23.003 9.1).
